@@ -531,15 +531,20 @@ def replay(ctx, rep):
 
 
 MANIFEST = {
-    "text": "Translation validation by a Lean-verified checker: `certify_sound` (Lean 4, any linear ordered field) proves that whenever "
-            "the executable checker accepts a diagram and a list of critical pairs, the piecewise-linear functions equal the k-th-largest-tent "
-            "landscape at every real t and every depth k (well-formedness: ordered abscissae, zero ends, zero beyond the last depth). On every "
-            "run the real PersLandscapeExact is called on generated diagrams (all interaction classes, several diagrams + hom_deg, trailing "
-            "infinite bar) and its own output is sent to the compiled checker, so for each explored diagram the for-all-t-and-k conclusion is a "
-            "theorem instance; diagrams are sampled. The output is also compared with a line-by-line Lean model of compute_landscape. The "
-            "known repeated-bar-shortcut defect is a theorem about that model (`shortcut_counterexample`) and is reported as KNOWN-FINDING.",
+    "text": "Translation validation by a Lean-verified checker, plus a proof about the model of the algorithm. (1) `certify_sound` "
+            "(Lean 4, any linear ordered field): whenever the executable checker accepts a diagram and a list of critical pairs, the "
+            "piecewise-linear functions equal the k-th-largest-tent landscape at every real t and every depth k (with ordered abscissae, "
+            "zero ends, zero beyond the last depth). On every run the real PersLandscapeExact is called on generated diagrams (all "
+            "interaction classes, several diagrams + hom_deg, trailing infinite bar) and its OWN output is sent to the compiled checker, "
+            "so for each explored diagram the for-all-t-and-k conclusion is a theorem instance; diagrams are sampled. (2) "
+            "`sweepNoShortcut_correct` / `sweep_correct_of_not_fired`: for EVERY diagram with bars of positive length the line-by-line "
+            "Lean model of compute_landscape terminates and, whenever its repeated-bar shortcut does not fire, returns well-formed "
+            "critical pairs equal to the landscape for all t and k; the model is compared with the real code on every generated diagram "
+            "(exactly on dyadic input). The known repeated-bar-shortcut defect is a theorem about that model (`shortcut_counterexample`) "
+            "and is reported as KNOWN-FINDING; wrong results are attributed to it only when the guarded trace says the shortcut fired.",
     "note": "Trusted: Lean kernel + Mathlib (axioms propext/Classical.choice/Quot.sound), the harness/protocol, np.interp as linear "
             "interpolation. Exact on lattice/half/dyadic input; on decimal input the code's rounded midpoints are certified within 1e-9*scale "
-            "(`certifyTol_sound`). Not proved for all diagrams: correctness of the sweep itself is a stated stretch goal.",
-    "technique": "Lean-verified certificate checker applied to the real code's output + differential model correspondence",
+            "(`certifyTol_sound`). The level stays translation validation because the real code is tied to the model only by the sampled "
+            "correspondence and because the property as stated is false on the unchanged tree (known finding).",
+    "technique": "Lean-verified certificate checker applied to the real code's output + proved model of the sweep + differential correspondence",
 }
